@@ -268,7 +268,7 @@ def classify(case, o):
 # ---- C: other uses of a snapshot that holds user-controlled parts: never compared, membership, sub-snapshots in loops
 def gen_usage(rng, i):
     kind = ["never", "in", "getitem_loop", "never", "in_nested", "bound_nested", "bound_fstring", "getitem_star", "star_nested",
-            "in_star", "star_loop", "equal_other_spelling", "call_hidden_kw", "inner_field", "fstring_nofield", "never_factory", "cond_inner", "in_nonlist_unm", "leaf_fkey", "leaf_call_pos_unm"][i % 20]
+            "in_star", "star_loop", "equal_other_spelling", "call_hidden_kw", "inner_field", "fstring_nofield", "never_factory", "cond_inner", "in_nonlist_unm", "leaf_fkey", "leaf_call_pos_unm", "set_star"][i % 21]
     g = G(rng, agree=True)
     flags = tuple(rng.choice(proggen.flag_subsets()))
     if kind == "never":
@@ -423,7 +423,18 @@ def gen_usage(rng, i):
         body = ("from collections import namedtuple\nVER = namedtuple('VER', 'major minor')\nX = 1\n\n\ndef test_a():\n    R = "
                 + f"{left} {op} snapshot({right.format(a=arg)})\n")
         g.snips.append(arg)
-        allowed = set()
+        allowed = {"trim"} if op == "in" else set()      # a member that was not tested is removed as a whole by trim
+    elif kind == "set_star":
+        # a SET display holding a star-expression is a container holding a star-expression: never altered, equal or not, alone or inside other containers
+        left, right = rng.choice([("{1, 2}", "{*S, 0x2}"), ("{1, 3}", "{*S, 2}"), ("[{1, 2}, 5]", "[{*S, 0x2}, 4]"), ("{'k': {1, 2}}", "{'k': {*S, 0x2}}"), ("DC(a={1, 2}, b=0)", "DC(a={*S, 0x2}, b=1)")])
+        op = rng.choice(["==", "==", "in", "<="])
+        if op == "in":
+            right = "[" + right + ", 0+1]"
+        elif op == "<=":
+            left, right = "[" + left + "]", "[" + right + "]"
+        body = f"S = {{1}}\n\n\ndef test_a():\n    R = {left} {op} snapshot({right})\n"
+        g.snips.append("*S")
+        allowed = {"trim"} if op == "in" else set()      # a member that was not tested is removed as a whole by trim
     elif kind == "leaf_fkey":
         # an f-string as KEY of a dict that is handled as a whole (member of an `in` / <= list): the key is the user's, the leaf is not rewritten
         form = rng.choice(["[{{{k}: 1}}] <= snapshot([{{{k}: 1+0}}])", "{{{k}: 1}} in snapshot([{{{k}: 1+0}}, 0+1])", "[{{{k}: 1}}] >= snapshot([{{{k}: 1+0}}])",
